@@ -154,6 +154,10 @@ def gen_cell(cell, rng, rep):
     cfg = {'arch_version': 7, 'have_security_ext': sec, 'have_virt_ext': virt, 'have_lpae': False,
            'memory_system_architecture': 'VMSA' if virt else rng.choice(['PMSA', 'PMSA', 'VMSA']), 'number_of_mpu_regions': 12}
     cfg.update(G.impdef_switches(rng))
+    if cell.get('VE') and rng.random() < 0.6:
+        # the IMPLEMENTATION DEFINED interrupt vectors of the configuration file: any address, address 0 included
+        cfg['impdef_irq_vector'] = rng.choice([0, 0, 0x18, 0x40, 0x200, 0xFFFF0018, rng.getrandbits(30) << 2])
+        cfg['impdef_fiq_vector'] = rng.choice([0, 0, 0x1C, 0x60, 0x240, 0xFFFF001C, rng.getrandbits(30) << 2])
     pmsa = cfg['memory_system_architecture'] == 'PMSA'
     kind = cell['kind']
     thumb = cell['t']
